@@ -68,6 +68,16 @@ const CLASS_NAMES: &[&str] = &[
 
 pub const MAX_RELEASERS: usize = 4;
 
+/// Request sizes by op argument. Indices 0..=3 are the plain small requests; the wide domain
+/// (configuration mode bit 1) adds requests that do not fit into 32 bits (on 64-bit targets) and
+/// the largest request there is. None of the large ones can ever be satisfied in a history,
+/// because releases are capped by the configuration.
+pub const REQUESTS: [usize; 7] = [0, 1, 2, 3, (u32::MAX as usize).wrapping_add(1), (u32::MAX as usize).wrapping_add(3), usize::MAX];
+
+fn request(arg: u8) -> usize {
+    REQUESTS[arg as usize % REQUESTS.len()]
+}
+
 impl World for SemaphoreWorld {
     fn id(&self) -> u8 {
         2
@@ -88,6 +98,12 @@ impl World for SemaphoreWorld {
                 }
             }
         }
+        // wide request domain (mode bit 1): requests beyond 32 bits next to the small ones
+        for flavour in [FL_LOCAL, FL_SHARED_CHECKED] {
+            for mode in [2u8, 3] {
+                v.push(Cfg { flavour, mode, x: 3, y: 12, k });
+            }
+        }
         v
     }
     fn enum_configs(&self, tier: Tier) -> Vec<(Cfg, usize)> {
@@ -96,22 +112,25 @@ impl World for SemaphoreWorld {
             if tier == Tier::Quick {
                 v.push((Cfg { flavour: FL_CHECKED, mode, x: 0, y: 2, k: 2 }, 64));
                 v.push((Cfg { flavour: FL_CHECKED, mode, x: 1, y: 3, k: 2 }, 64));
+                v.push((Cfg { flavour: FL_CHECKED, mode: mode | 2, x: 2, y: 2, k: 2 }, 5));
             } else {
                 for (x, y) in [(0u8, 3u8), (1, 3), (2, 3), (3, 4)] {
                     v.push((Cfg { flavour: FL_CHECKED, mode, x, y, k: 3 }, 200));
                 }
                 v.push((Cfg { flavour: FL_SHARED_CHECKED, mode, x: 1, y: 3, k: 2 }, 200));
+                v.push((Cfg { flavour: FL_CHECKED, mode: mode | 2, x: 2, y: 3, k: 2 }, 7));
             }
         }
         v
     }
     fn specs(&self, cfg: &Cfg) -> Vec<OpSpec> {
         let shared = cfg.flavour >= FL_SHARED;
+        let sizes = if cfg.mode & 2 != 0 { REQUESTS.len() as u8 } else { 4 };
         vec![
-            spec("create", 20, cfg.k, 4),
+            spec("create", 20, cfg.k, sizes),
             spec("poll", 40, cfg.k, 2),
             spec("drop", 10, cfg.k, 0),
-            spec("try_acquire", 6, 4, 0),
+            spec("try_acquire", 6, sizes, 0),
             spec("release", 10, 4, 0),
             spec("drop_releaser", 16, 4, 0),
             spec("disarm", 3, 4, 0),
@@ -141,7 +160,7 @@ impl World for SemaphoreWorld {
         }
     }
     fn cfg_desc(&self, cfg: &Cfg) -> String {
-        format!("semaphore flavour={} fair={} initial_permits={} release_cap={} slots={}", flavour_name(cfg.flavour), cfg.mode == 1, cfg.x, cfg.y, cfg.k)
+        format!("semaphore flavour={} fair={} initial_permits={} release_cap={} slots={}", flavour_name(cfg.flavour), cfg.mode & 1 == 1, cfg.x, cfg.y, cfg.k) + if cfg.mode & 2 != 0 { " requests=0..3 and beyond 2^32" } else { "" }
     }
     fn class_names(&self) -> &'static [&'static str] {
         CLASS_NAMES
@@ -231,7 +250,7 @@ fn next_where<F>(slots: &[Slot<F>], start: u8, pred: impl Fn(&Slot<F>) -> bool) 
 
 fn run_m<M: RawMutex>(cfg: &Cfg, ops: &[Op], run: &mut Run) {
     tls::reset_history();
-    let fair = cfg.mode == 1;
+    let fair = cfg.mode & 1 == 1;
     let shared = cfg.flavour >= FL_SHARED;
     let initial = cfg.x as usize;
     let cap = cfg.y as usize;
@@ -326,7 +345,7 @@ fn run_m<M: RawMutex>(cfg: &Cfg, ops: &[Op], run: &mut Run) {
         match op.code {
             OP_CREATE => match next_where(&slots, op.a, |s| !s.alive()) {
                 Some(s) => {
-                    let n = op.b as usize;
+                    let n = request(op.b);
                     let f = run.call("acquire()", || match sem_ref {
                         Sem::B(b) => SemFut::B(b.acquire(n)),
                         Sem::S(v) => SemFut::S(v.borrow().last().unwrap().acquire(n)),
@@ -398,7 +417,7 @@ fn run_m<M: RawMutex>(cfg: &Cfg, ops: &[Op], run: &mut Run) {
                 None => run.noops += 1,
             },
             OP_TRY => {
-                let n = op.a as usize;
+                let n = request(op.a);
                 let r = run.call("try_acquire()", || match sem_ref {
                     Sem::B(b) => b.try_acquire(n).map(SemRel::B),
                     Sem::S(v) => v.borrow().last().unwrap().try_acquire(n).map(SemRel::S),
@@ -668,7 +687,7 @@ fn monitors<M: RawMutex>(
             h.u8(s.done as u8);
             h.u8(s.last_w);
             h.u8(s.woken() as u8);
-            h.u8(s.num as u8);
+            h.u64(s.num);
             h.u8(if s.alive() && s.arrival != 0 { 1 + arr.iter().position(|a| *a == s.arrival).unwrap() as u8 } else { 0 });
         }
         for o in order.iter() {
